@@ -1,11 +1,12 @@
 import Xp.Model.C14
 import Xp.Proofs.C14
+import Xp.Proofs.C14Rev
 import Xp.Gen.PkgNames
 /-
 C14 — a package has at most one active revision, numbered last; history GC
 spares it.  Theorems about the model `Xp.C14.pkgReconcile` (Model/C14.lean, the
 reconciler with fixes/D5.diff applied), for ALL fault plans / histories.
-Helper lemmas are in Proofs/C14.lean.
+Helper lemmas are in Proofs/C14.lean and Proofs/C14Rev.lean.
 -/
 namespace Xp.C14
 
@@ -146,6 +147,145 @@ check): Get package, List revisions, List ImageConfigs, {Get, Patch} to deactiva
 collected revision, {Get, Patch} the current revision, Update (labels), Status().Update. -/
 theorem call_skeleton_matches_source :
     (applied sem Plan.allOk 0 (pkgReconcile skelEnv "p") skelStore).map Req.tag = Xp.Gen.pkgReconcileSkeleton := by
+  decide
+
+/-! ### the revisioner: package state × pull policy × fetch outcome -/
+
+/-- `PackageRevisioner.Revision`, for every package state, pull policy and fetch outcome: it
+returns the name `cur` (without error) exactly when
+(a) the pull policy is Never and `cur` is `FriendlyID(name, spec.package)`, or
+(b) the pull policy is IfNotPresent, the recorded `status.currentIdentifier` EQUALS the current
+    source, and `cur` is the recorded `status.currentRevision`, or
+(c) the registry was asked about the current source (reference parsed) and answered with a nil
+    descriptor (`cur = ""`: no name) or with digest `d`, and `cur = FriendlyID(name, d)`. -/
+theorem revisioner_characterised (env : Env) (p : Pkg) (cur : String) :
+    revisionName env p = .ok cur ↔
+      (p.spec.pull = .never ∧ cur = friendlyID p.name p.spec.source) ∨
+      (p.spec.pull = .ifNotPresent ∧ p.status.curId = p.spec.source ∧ cur = p.status.curRev) ∨
+      (skipsFetch p = false ∧ env.parseOk p.spec.source = true ∧
+        ((env.head p.spec.source = .nil ∧ cur = "") ∨
+         ∃ d, env.head p.spec.source = .digest d ∧ cur = friendlyID p.name d)) :=
+  revisionName_ok_iff env p cur
+
+/-- The revisioner returns a (non-empty) name only if it is the FriendlyID of the digest just
+fetched for the CURRENT source, or the recorded current revision when the recorded identifier
+equals the current source and the pull policy (IfNotPresent) allows skipping the fetch, or -
+pull policy Never - the FriendlyID of the source string itself.  In particular a recorded
+current revision is never returned for a source other than the one it was recorded for, and
+never after a failed fetch. -/
+theorem revisioner_name_sound (env : Env) (p : Pkg) (cur : String)
+    (h : revisionName env p = .ok cur) (hne : cur ≠ "") :
+    (skipsFetch p = false ∧ env.parseOk p.spec.source = true ∧
+      ∃ d, env.head p.spec.source = .digest d ∧ cur = friendlyID p.name d) ∨
+    (p.spec.pull = .ifNotPresent ∧ p.status.curId = p.spec.source ∧ cur = p.status.curRev) ∨
+    (p.spec.pull = .never ∧ cur = friendlyID p.name p.spec.source) := by
+  rcases (revisionName_ok_iff env p cur).mp h with h | h | ⟨h1, h2, ⟨_, e⟩ | h3⟩
+  · exact .inr (.inr h)
+  · exact .inr (.inl h)
+  · exact absurd e hne
+  · exact .inl ⟨h1, h2, h3⟩
+
+/-- `Revision` fails exactly when it has to ask the registry (no pull-policy shortcut applies)
+and either the source is not a valid reference or the fetch fails - with an error of ANY class. -/
+theorem revisioner_fails_iff (env : Env) (p : Pkg) :
+    revisionName env p = .error () ↔
+      skipsFetch p = false ∧ (env.parseOk p.spec.source = false ∨ ∃ c, env.head p.spec.source = .err c) :=
+  revisionName_error_iff env p
+
+/-- Every fetch error, of every class (opaque, temporary registry error such as 503 /
+TOOMANYREQUESTS, permanent registry error such as 401 / 404, context deadline), makes `Revision`
+fail whenever the registry has to be asked - whatever the package's recorded current revision
+and identifier are. -/
+theorem every_fetch_error_fails_revision (env : Env) (p : Pkg) (c : ErrClass)
+    (hs : skipsFetch p = false) (hh : env.head p.spec.source = .err c) :
+    revisionName env p = .error () :=
+  (revisionName_error_iff env p).mpr ⟨hs, .inr ⟨c, hh⟩⟩
+
+/-- A reconcile whose revisioner fails writes nothing: under every fault plan, at every instant
+(including right after a crash at any call) the revisions are exactly those of the start - no
+spec.image rewrite, no activation change, no creation, no deletion - and the package keeps its
+spec and its recorded currentRevision / currentIdentifier; no revision write is ever applied;
+and the reconcile never reports success or a plain requeue (it returns the error whenever the
+package is this one and is not paused). -/
+theorem failed_revision_reconcile_writes_nothing (env : Env) (pname : String) (plan : Plan) (k : Nat)
+    (s : Store) (p : Pkg) (hp : s.pkg = some p) (herr : revisionName env p = .error ()) :
+    (∀ s' ∈ reach sem plan k (pkgReconcile env pname) s,
+      s'.revs = s.revs ∧ ∃ p', s'.pkg = some p' ∧ p'.name = p.name ∧ p'.spec = p.spec ∧
+        p'.status.curRev = p.status.curRev ∧ p'.status.curId = p.status.curId) ∧
+    (∀ r ∈ applied sem plan k (pkgReconcile env pname) s, isRevWrite r = false) ∧
+    (∀ s' a, run sem plan k (pkgReconcile env pname) s = (s', some a) →
+      (∀ c af, a ≠ .done c af) ∧ a ≠ .requeue ∧
+      (p.name = pname → p.spec.paused = false → p.status.pausedCond = false → a = .err)) := by
+  have ht := reconcile_err_tri env pname s p hp herr
+  refine ⟨?_, Tri.applied plan k _ s ht, ?_⟩
+  · intro s' hs'
+    have hc : core s' = core s := Tri.reach (I := fun s' => core s' = core s) plan k _ s rfl ht s' hs'
+    simp only [core, hp, Option.map_some, Prod.mk.injEq] at hc
+    obtain ⟨h1, h2⟩ := hc
+    refine ⟨h1, ?_⟩
+    cases hq : s'.pkg with
+    | none => rw [hq] at h2; simp at h2
+    | some q =>
+      rw [hq] at h2
+      simp only [Option.map_some, Option.some.injEq, Prod.mk.injEq] at h2
+      exact ⟨q, rfl, h2.1, h2.2.2.1, h2.2.2.2.1, h2.2.2.2.2⟩
+  · intro s' a hr
+    obtain ⟨h1, h2⟩ := Tri.run plan k _ s ht s' a hr
+    refine ⟨?_, ?_, h2⟩
+    · intro c af e; subst e; rcases h1 with h | h | h <;> cases h
+    · intro e; subst e; rcases h1 with h | h | h <;> cases h
+
+/-- ... in particular after a fetch error of any class, for every package state in which the
+registry has to be asked (e.g. right after a source edit, whatever revision is recorded as
+current): no write to any revision, currentIdentifier does not move. -/
+theorem fetch_error_reconcile_writes_nothing (env : Env) (pname : String) (plan : Plan) (k : Nat)
+    (s : Store) (p : Pkg) (c : ErrClass) (hp : s.pkg = some p)
+    (hs : skipsFetch p = false) (hh : env.head p.spec.source = .err c) :
+    (∀ s' ∈ reach sem plan k (pkgReconcile env pname) s,
+      s'.revs = s.revs ∧ ∃ p', s'.pkg = some p' ∧ p'.name = p.name ∧ p'.spec = p.spec ∧
+        p'.status.curRev = p.status.curRev ∧ p'.status.curId = p.status.curId) ∧
+    (∀ r ∈ applied sem plan k (pkgReconcile env pname) s, isRevWrite r = false) :=
+  have h := failed_revision_reconcile_writes_nothing env pname plan k s p hp
+    (every_fetch_error_fails_revision env p c hs hh)
+  ⟨h.1, h.2.1⟩
+
+/-- Every status write a reconcile applies (under any fault plan) either keeps the recorded
+(currentRevision, currentIdentifier) pair, or records (name, source) where `name` is the
+non-empty name the revisioner resolved for the package's CURRENT source (see
+`revisioner_name_sound` for what that can be): the current revision is never recorded for
+another source. -/
+theorem recorded_current_revision_is_resolved (env : Env) (pname : String) (plan : Plan) (k : Nat)
+    (s : Store) (p : Pkg) (hp : s.pkg = some p) (n : String) (st : Status)
+    (h : Req.statusPkg n st ∈ applied sem plan k (pkgReconcile env pname) s) :
+    (st.curRev = p.status.curRev ∧ st.curId = p.status.curId) ∨
+    (st.curId = p.spec.source ∧ st.curRev ≠ "" ∧ revisionName env p = .ok st.curRev) :=
+  Tri.applied plan k _ s (reconcile_status_tri env pname s p hp) _ h n st rfl
+
+/-- The error kinds the harness' fake registry answers with carry, in the current tree's
+go-containerregistry, the classes the model assigns them (table regenerated on every run from
+the real error values: `errors.As(*transport.Error)` + `Temporary()`, context errors), and
+every class is exercised. -/
+theorem fetch_error_classes_match_source :
+    Xp.Gen.fetchErrKinds.all (fun t => errClassOfKind t.1 == ErrClass.ofString t.2) = true ∧
+    [ErrClass.plain, .temporary, .permanent, .timeout].all
+      (fun c => Xp.Gen.fetchErrKinds.any (fun t => ErrClass.ofString t.2 == c)) = true := by decide
+
+/-- the seeded trigger (corpus/C14/fetcherr.jsonl): installed at v1 under IfNotPresent, source
+edited to v2, the registry answers the HEAD for v2 with a temporary error -/
+def hiccupStore : Store :=
+  { pkg := some { name := "p", uid := "u-p",
+                  spec := { source := "xpkg.io/org/pkg:v2", limit := some 1, policy := .unset, pull := .ifNotPresent, paused := false, labels := [] },
+                  status := { curRev := "p-1111111111aa", curId := "xpkg.io/org/pkg:v1", pausedCond := false } }
+    revs := [ { name := "p-1111111111aa", parent := some "p", number := 1, state := .active, ctrl := some "u-p",
+                image := "xpkg.io/org/pkg:v1", labels := [], fin := false, deleting := false } ] }
+
+def hiccupEnv (c : ErrClass) : Env := { head := fun _ => .err c, parseOk := fun _ => true }
+
+/-- the hypotheses of `fetch_error_reconcile_writes_nothing` are satisfiable, and on the seeded
+trigger the model reconcile fails and leaves the store as it was, for each error class -/
+example : ∀ c ∈ [ErrClass.plain, .temporary, .permanent, .timeout],
+    skipsFetch (hiccupStore.pkg.getD default) = false ∧
+    run sem Plan.allOk 0 (pkgReconcile (hiccupEnv c) "p") hiccupStore = (hiccupStore, some .err) := by
   decide
 
 /-! ### history garbage collection -/
